@@ -15,6 +15,7 @@ def make (kind : String) (s i : Nat) : Elem :=
   | "u64" => [val s i 0 * 4294967296 + val s i 0]
   | "b3" => [val s i 0, val s i 1, val s i 2]
   | "slot" => slotMake s i
+  | "p2" => [val s i 0, val s i 1]
   | _ => slotMake s (3 * i) ++ slotMake s (3 * i + 1) ++ slotMake s (3 * i + 2)
 
 def slotZ : Elem → Elem
@@ -33,6 +34,7 @@ def dOf (kind : String) : Elem :=
   | "unit" => []
   | "u8" | "u64" => [0]
   | "b3" => [0, 0, 0]
+  | "p2" => [17, 34]
   | "slot" => [7, 0, 4660]
   | _ => [7, 0, 4660, 7, 0, 4660, 7, 0, 4660]
 
